@@ -86,9 +86,6 @@ type jop struct {
 }
 
 type jcase struct {
-	// Kind "" = ordinary history; "known-mutate" = the stored history of finding C13-mutate-supervoxel-ids,
-	// printed as zKnownMutate and judged by the dedicated class 20 of Model/AnnotRun.v
-	Kind   string   `json:"kind,omitempty"`
 	Paint0 []jpaint `json:"paint0"`
 	Q0     []jquery `json:"q0,omitempty"`
 	Ops    []jop    `json:"ops"`
@@ -743,7 +740,20 @@ func (h *hist) exec(op *jop) (string, int) {
 		if op.Op == "mutate" {
 			q, name = "?mutate=true", "zMutate"
 		}
-		term = fmt.Sprintf("%s %s %s", name, op.B.coq(), coqPaint(op.Paint))
+		// the request carries supervoxel ids; the Coq term carries the body labels they map to
+		// (fresh ids map to themselves, kept supervoxels to their current body)
+		svBody := map[uint64]uint64{}
+		for i := range h.sv {
+			svBody[h.sv[i]] = h.body[i]
+		}
+		bodyPaint := make([]jpaint, len(op.Paint))
+		for i, p := range op.Paint {
+			bodyPaint[i] = p
+			if b, ok := svBody[p.L]; ok {
+				bodyPaint[i].L = b
+			}
+		}
+		term = fmt.Sprintf("%s %s %s", name, op.B.coq(), coqPaint(bodyPaint))
 		cls = classOf(dv.Post(h.url("lm", fmt.Sprintf("raw/0_1_2/16_16_16/%d_0_0%s", bs*op.B[0], q)), volume(op.Paint, bs*op.B[0], bs)))
 		for _, p := range op.Paint {
 			h.addKnown(p.L)
@@ -1368,16 +1378,8 @@ func (g *gstate) nextFresh() uint64 {
 }
 
 func (g *gstate) genMutate() *jop {
-	var cands []int
-	for _, bx := range g.mutable {
-		ok := true
-		for x := bx * bs; x < (bx+1)*bs; x++ {
-			ok = ok && g.h.sv[x-xmin] == g.h.body[x-xmin]
-		}
-		if ok {
-			cands = append(cands, bx)
-		}
-	}
+	// any block that holds data: the posted array carries supervoxel ids, also of merged / cleaved bodies
+	cands := append([]int(nil), g.mutable...)
 	if len(cands) == 0 {
 		return nil
 	}
@@ -1386,9 +1388,9 @@ func (g *gstate) genMutate() *jop {
 	changed := false
 	x := bx * bs
 	for x < (bx+1)*bs {
-		l := g.h.body[x-xmin]
+		l := g.h.sv[x-xmin]
 		e := x
-		for e+1 < (bx+1)*bs && g.h.body[e+1-xmin] == l {
+		for e+1 < (bx+1)*bs && g.h.sv[e+1-xmin] == l {
 			e++
 		}
 		pieces := [][2]int{{x, e}}
@@ -1635,12 +1637,7 @@ func runStored(run *lib.Run, kind string, jc jcase) {
 			break
 		}
 	}
-	term := h.term()
-	if jc.Kind == "known-mutate" {
-		kind = "known:mutate-supervoxel-ids"
-		term = "(zKnownMutate" + strings.TrimPrefix(term, "(zCase")
-	}
-	run.Add(kind, term, jc, opKey(jc.Ops))
+	run.Add(kind, h.term(), jc, opKey(jc.Ops))
 }
 
 func runRandom(run *lib.Run, r *lib.Rand, nops int) {
@@ -1701,9 +1698,9 @@ func corpus() []jcase {
 			{Op: "move", P: pos{12, 15, 0}, Q: pos{15, 0, 15}},
 			{Op: "delete", P: pos{-1, 15, 15}, Queries: []jquery{{Q: "region", Off: all, Size: pos{40, 24, 24}}}},
 		}},
-		// (iv) recorded finding C13-mutate-supervoxel-ids (findings/C13.json): a voxel edit of a block whose
-		// supervoxels were merged; mutateBlock reads the supervoxel ids of the event as body labels
-		{Kind: "known-mutate", Paint0: pt, Ops: []jop{
+		// (iv) a voxel edit of a block whose supervoxels were merged (the block event carries supervoxel ids,
+		// the handler must file elements under body labels: repaired by C13-6-fix)
+		{Paint0: pt, Ops: []jop{
 			{Op: "post", Elems: []elem{{Pos: pos{9, 1, 1}, Kind: 4}}},
 			{Op: "merge", Target: 1, Labels: []uint64{2}},
 			{Op: "mutate", B: pos{0, 0, 0}, Paint: []jpaint{{0, 7, 1}, {8, 15, 4993}}, Force: true},
